@@ -360,6 +360,22 @@ theorem cartesian_centres_and_dx (bounds : List (K × K)) (shape : List ℕ) (pe
     · rw [max_eq_left hle, min_eq_right hle, abs_of_nonpos (sub_nonpos.mpr hle)]; ring
   simpa only [e] using key
 
+/-- the grid every accepted constructor call creates has cell volumes that sum to its volume, and
+`integrate(1)` returns the volume (`cell_volumes_sum_eq_volume` for the constructed grid) -/
+theorem constructed_cell_volumes_sum (pi : K) (c : Ctor K) (g : Grid K) (h : Grid.construct c = .ok g)
+    (hv : c.Valid) :
+    g.integrateAll pi (fun _ => 1) = g.volume pi ∧ sumIdx g.shape (g.cellVolume pi) = g.volume pi :=
+  cell_volumes_sum_eq_volume pi g (construct_wf c g h hv)
+
+/-- on the grid a constructor creates, cell -> Cartesian -> cell is the identity (`cell_cart_cell`
+for the constructed grid: all five classes) -/
+theorem constructed_cell_cart_cell (c : Ctor K) (g : Grid K) (h : Grid.construct c = .ok g) (hv : c.Valid)
+    (cs : List K) (hl : cs.length = g.axes.length)
+    (hr : (g.cls = .unit ∨ g.cls = .cartesian) ∨ ∀ r ∈ (g.cellToGrid cs).head?, 0 ≤ r) (r' : K)
+    (hr' : 0 ≤ r') (e : r' ^ 2 = g.radiusSq (g.cellToCartesian cs)) :
+    g.cartesianToCell r' (g.cellToCartesian cs) = cs :=
+  cell_cart_cell g (construct_wf c g h hv) cs hl hr r' hr' e
+
 /-- the radius checks: a negative inner radius and `r_inner ≥ r_outer` are refused (`ValueError`) -/
 theorem construct_rejects_bad_radius (radius : Radius K) (shape : List ℕ) (zlo zhi : K) (pz : Bool)
     (hbad : radius.bounds.1 < 0 ∨ radius.bounds.2 ≤ radius.bounds.1) :
